@@ -329,9 +329,11 @@ class CMakeTraceParser:
 
         # Write to the CMake cache instead
         if cache_type:
-            # Honor how the CMake FORCE parameter works
-            if identifier not in self.cache or cache_force:
-                self.cache[identifier] = CMakeCacheEntry(value.split(';'), cache_type)
+            # Honor how the CMake FORCE parameter works: an existing entry
+            # keeps its value, and so does the variable that reads it
+            if identifier in self.cache and not cache_force:
+                return
+            self.cache[identifier] = CMakeCacheEntry(value.split(';'), cache_type)
 
         if not value:
             # Same as unset
